@@ -13,26 +13,38 @@ LEVEL_NOTE = ("Trusted: Lean 4.33 kernel (axioms per theorem are audited on ever
 
 # property -> (engine, technique, text)
 CLAIMED = {
-    "C01": ("text", "Lean 4 proof over hand-written reader/emitter model + differential correspondence + failing-input search",
-            "Theorems: fixed points of the canonicaliser are stable under any number of passes; the whole model evaluated by the kernel on a nested document. "
-            "Tie: regenerated lexer/emitter/parser tables pinned by decide facts; exact correspondence (canonical text, strict verdict) of the full "
+    "C01": ("text", "Lean 4 proof over hand-written reader/emitter model (document-level round trip for flat documents; lexer/emitter lemmas for the rest) + differential correspondence + failing-input search",
+            "Theorems (all inputs of the class): for every FLAT document (envelope, any number of KEY::scalar lines with quoted strings of any characters, bare words, booleans, null) the canonical "
+            "text is accepted by the strict reader, which returns the same document, and canonicalising it again gives the same bytes (C01_flat_canonical_is_readable, C01_flat_fixed_point); "
+            "one fixed-point step is stable; emit ignores positions. PARTIAL: for documents with blocks, sections, lists, comments, META, zones the document-level statement is an open proof target "
+            "(blocks in progress) and is backed by the tie only: regenerated lexer/emitter/parser tables pinned by decide facts; exact correspondence (canonical text, strict verdict) of the full "
             "lexer+parser+emitter transcription on generated documents, the shipped corpus, exhaustive token sequences and mutations; oracle on the real code incl. tools."),
-    "C02": ("text", "Lean 4 proof (reader value typing) + content-model oracle + AST correspondence",
-            "Theorems: STRING/NUMBER/BOOLEAN/NULL tokens are read back as str/int/float/bool/null for every parser state and continuation. Oracle: content known independently "
-            "of any parser (generator model), covering matrix value kind x position; correspondence on full ASTs with positions."),
+    "C02": ("text", "Lean 4 proof (content preservation for flat documents; reader value typing; list values at parser level) + content-model oracle + AST correspondence",
+            "Theorems: reading the canonical text of every flat document yields exactly its name, keys in order and values with their types, nothing else (C02_flat_content_preserved, strict and "
+            "lenient entry points, exact parser warnings); parseValue on (nested) list tokens of any length returns exactly the list (C02_nested_list_typed); STRING/NUMBER/BOOLEAN/NULL tokens are read back "
+            "as str/int/float/bool/null for every state and continuation. PARTIAL: nested blocks/sections, comments, META, zones at document level are backed by the content oracle (content known "
+            "independently of any parser, covering matrix value kind x position) and the correspondence on full ASTs with positions."),
     "C03": ("text", "Lean 4 proof (emitter is a function of content; alias table; indentation; final newline) + convergence search",
-            "Theorems: emit ignores every source position (any depth), alias normalisation agrees with the regenerated ASCII_ALIASES, 2 spaces per level, final newline. "
-            "Oracle: several independent lenient spellings per document converge byte-for-byte; independent strict-profile recogniser; octave_write(lenient) bytes."),
-    "C04": ("text", "Lean 4 proof (escape/unescape inverse, quoted lexeme re-lexes to one STRING token, reserved-prefix quoting) + exhaustive scalar round trip",
-            "Theorems hold for every string. Exhaustive strings <=3 over the class alphabet x 9 positions, random strings, ints to 4300 digits, floats; emitter and reader "
-            "models correspond exactly on all of them; octave_write changes path."),
+            "Theorems: emit ignores every source position (any depth), alias normalisation agrees with the regenerated ASCII_ALIASES, 2 spaces per level, final newline. PARTIAL: convergence of every "
+            "lenient spelling is proved for no document class yet (flat documents in progress); it is decided by the search: several independent lenient spellings per document converge byte-for-byte; "
+            "independent strict-profile recogniser; octave_write(lenient) bytes."),
+    "C04": ("text", "Lean 4 proof (escape/unescape inverse; every quoted or bare string, boolean, null survives emit -> tokenize -> parse inside a flat document) + exhaustive scalar round trip",
+            "Theorems hold for every string of any characters: unescape(escape s) = s; the quoted lexeme re-lexes to ONE STRING token carrying s; a bare word to one IDENTIFIER token; at document level "
+            "(flat documents) the value read back equals the value written (C02_flat_content_preserved). PARTIAL: numbers (int/float re-lex, in progress), list / inline-map / META positions and NFC "
+            "(finding F16) are decided by the exhaustive correspondence: strings <=3 over the class alphabet x 9 positions, random strings, ints to 4300 digits, floats; octave_write changes path."),
     "C05": ("text", "Lean 4 proof (no NFC / verbatim copy inside fences for arbitrary environments; verbatim emission) + zone pipelines search",
-            "Zone-dense generated documents through 9 pipelines; zones and neighbours compared with the generator's model; model/implementation zone correspondence."),
-    "C07": ("text", "Lean 4 proof (one receipt with exact position per normalising lexer step, none otherwise) + receipt bijection search",
-            "Expected receipts come from the renderer's own layout arithmetic; receipts compared as lists with positions; model/implementation receipt lists correspond exactly."),
-    "C20": ("text", "Lean 4 proof (scanner progress lemmas, no foreign exception from int()) + exhaustive/seeded exception-class correspondence + deterministic cost scaling",
-            "Reader: exhaustive token sequences, random Unicode, mutations, depth ladders; exception classes of model and implementation agree; scaling on sys.monitoring event counts. "
-            "Tools: every tool x flag combination returns a JSON-serialisable envelope."),
+            "Theorems: zone content lines are copied verbatim by normalisation and by emit; an empty zone is not absent; a shorter backtick run is content. PARTIAL: byte identity through the whole reader "
+            "and the tool routes is decided by zone-dense generated documents through 9 pipelines; zones and neighbours compared with the generator's model; model/implementation zone correspondence."),
+    "C07": ("text", "Lean 4 proof (lexer-level bijection between normalised tokens and normalisation receipts for every input; canonical flat text has none) + receipt bijection search",
+            "Theorems (every input text, both lexer modes): the normalisation receipts are, in order, exactly the normalised tokens with original text, replacement and position "
+            "(C07_lexer_receipts_bijection, every_rewrite_has_receipt, every_receipt_has_rewrite); the log is append-only; canonical flat documents yield no normalisation receipt. PARTIAL: parser-level "
+            "rewrites (multi-word values, constructor repairs) and the tool routes (finding C07N1) are decided by the search: expected receipts from the renderer's own layout arithmetic, compared as "
+            "lists with positions; model/implementation receipt lists correspond exactly."),
+    "C20": ("text", "Lean 4 proof (lexer: closure, progress, no hang; parser: no foreign exception escapes) + exhaustive/seeded exception-class correspondence + deterministic cost scaling",
+            "Theorems (every input): only positioned LexerErrors escape tokenize, every iteration consumes input, the fuel is never exhausted; the parser never lets a foreign Python exception escape "
+            "(C20_parser_closed / C20_reader_closed); tools: guard coverage of every stage from the regenerated try/except structure. PARTIAL: parser fuel adequacy (no hang) is in progress; "
+            "C20_tools_total_partial rests on listed exception-free stages; runtime limits (recursion, memory) are outside. Search: exhaustive token sequences, random Unicode, mutations, depth ladders, "
+            "deadline-guarded tool calls (a hang is a failure with the input), scaling on sys.monitoring event counts."),
 }
 EXTRA = {}  # filled from tools/manifest_extra.json (builders' engines, wired by the lead)
 
